@@ -150,6 +150,15 @@ func (s *LinearState) Load(ctx *Context) error {
 			return err
 		}
 		s.Facts[id] = RawFact{m, js}
+		if s.addHook != nil && ctx.GetLoc() != nil {
+			// As IndexedState does: a cron that does not
+			// persist its jobs wants to hear about the
+			// scheduled rules of a (re)loaded location.
+			if err = s.addHook(ctx, s, id, m, ctx.GetLoc().loading); err != nil {
+				Log(ERROR, ctx, "LinearState.Load", "state", s.Name, "error", err, "when", "addHook", "id", id)
+				return err
+			}
+		}
 	}
 
 	Log(DEBUG, ctx, "LinearState.Load", "location", s.Name, "facts", len(s.Facts))
